@@ -361,6 +361,7 @@ func run(c *lib.Ctx, cs caseT) {
 	var fails []failT
 	fail := func(sig, what string) { fails = append(fails, failT{sig, what}) }
 	prev := readDB(s, cs.NTab)
+	prevOrphans := map[int]int64{}
 	var events []string
 	nCascade := 0
 	for si, st := range cs.H {
@@ -375,7 +376,29 @@ func run(c *lib.Ctx, cs caseT) {
 			kind = "(Some EFk)"
 		}
 		cur := readDB(s, cs.NTab)
-		events = append(events, fmt.Sprintf("Ev (%s) %s %s", st.coq(), kind, cur.coq()))
+		// the one shape the model does not cover: DELETE of a row with >= 2 ON DELETE CASCADE children in its own table
+		shape := st.K
+		if st.K == "del" {
+			for _, f := range cs.FKs {
+				if f.Child == st.T && f.Parent == st.T && f.OnDel == "Cascade" {
+					n := 0
+					for _, rw := range prev[st.T] {
+						if v := rw.F[f.Col]; v != nil && *v == st.ID && rw.ID != st.ID {
+							n++
+						}
+					}
+					if n >= 2 {
+						shape = "del-self-referential-cascade-siblings"
+					}
+				}
+			}
+		}
+		if shape == "del-self-referential-cascade-siblings" {
+			c.Count("stmt/" + shape)
+			events = append(events, fmt.Sprintf("EvSkip %s", cur.coq()))
+		} else {
+			events = append(events, fmt.Sprintf("Ev (%s) %s %s", st.coq(), kind, cur.coq()))
+		}
 		// 1. referential integrity by the orphan query
 		for i, f := range cs.FKs {
 			oq := fmt.Sprintf("SELECT COUNT(*) FROM t%d c LEFT JOIN t%d p ON c.f%d = p.id WHERE p.id IS NULL AND c.f%d IS NOT NULL", f.Child, f.Parent, f.Col, f.Col)
@@ -383,8 +406,11 @@ func run(c *lib.Ctx, cs caseT) {
 			if rr.Err != nil || len(rr.Rows) != 1 {
 				panic(fmt.Sprintf("orphan query failed: %v", rr.Err))
 			}
-			if n := toI(rr.Rows[0][0]); n != 0 {
-				fail(fmt.Sprintf("orphan-rows/%s/on-delete-%s/on-update-%s", st.K, f.OnDel, f.OnUpd),
+			n := toI(rr.Rows[0][0])
+			was := prevOrphans[i]
+			prevOrphans[i] = n
+			if n > was {
+				fail(fmt.Sprintf("orphan-rows/%s/on-delete-%s", shape, f.OnDel),
 					fmt.Sprintf("after statement %d %s: %d row(s) of t%d.f%d reference a missing t%d.id (fk%d) [%s]; tables %s", si, q, n, f.Child, f.Col, f.Parent, i, oq, cur))
 			}
 		}
@@ -408,7 +434,7 @@ func run(c *lib.Ctx, cs caseT) {
 				case !ok && kind == "None":
 					fail("delete-ignored-restrict", fmt.Sprintf("statement %d %s succeeded although a RESTRICT/NO ACTION key references a deleted row; before %s after %s", si, q, prev, cur))
 				case ok && kind == "None" && !sameDB(want, cur):
-					fail("delete-effect-differs", fmt.Sprintf("statement %d %s: expected %s, got %s", si, q, want, cur))
+					fail("delete-effect-differs/"+shape, fmt.Sprintf("statement %d %s: expected %s, got %s", si, q, want, cur))
 				}
 			}
 		case "ins":
@@ -475,6 +501,9 @@ func main() {
 				H: []Stmt{{K: "ins", T: 0, ID: 1}, {K: "ins", T: 0, ID: 2}, {K: "ins", T: 1, ID: 10, A: ip(1), B: ip(2)}, {K: "del", T: 0, ID: 2},
 					{K: "del", T: 0, ID: 1}, {K: "updid", T: 0, ID: 2, A: ip(3)}, {K: "updcol", T: 1, ID: 10, C: 2, A: ip(7)}, {K: "updcol", T: 1, ID: 10, C: 2}}},
 		}
+		// known finding: self-referential ON DELETE CASCADE skips siblings: (4,1) survives the delete of row 1
+		corpus = append(corpus, caseT{NTab: 1, FKs: []FK{{0, 1, 0, "Cascade", "Restrict"}},
+			H: []Stmt{{K: "ins", T: 0, ID: 1}, {K: "ins", T: 0, ID: 2, A: ip(1)}, {K: "ins", T: 0, ID: 3, A: ip(1)}, {K: "ins", T: 0, ID: 4, A: ip(1)}, {K: "del", T: 0, ID: 1}}})
 		for _, cs := range corpus {
 			run(c, cs)
 		}
